@@ -52,7 +52,7 @@ class C07(Property):
     drivers = ["Drivers/Net.lean"]
     translators = []
     rule = ("the token and provenance tables of the SQLite database are dumped after every run of random well-formed DAG workflows "
-            "(sfv.rt.wfgen, real step classes incl. job pipelines) under the default order and 2 (quick) / 4 (thorough) PRNG interleavings; "
+            "(sfv.rt.wfgen, real step classes incl. job pipelines) under the default order and 2 (quick) / 3 (thorough) PRNG interleavings; "
             "one third of the workflows with an injected transformer failure (table-level checks only). Checked per run: dependee id < "
             "depender id on every row, no dangling id, no cycle (DFS), every data token of every port persisted, the edge set (tokens "
             "identified by port:tag) equal to what the property demands (oracle) and to the Lean model `prov` (driver); job outputs linked "
@@ -80,7 +80,7 @@ class C07(Property):
 
     def explore(self, ctx: Ctx) -> None:
         rng = ctx.rng
-        n, k = (300, 4) if ctx.tier == "thorough" else (50, 2)
+        n, k = (200, 3) if ctx.tier == "thorough" else (50, 2)
         if ctx.mode == "search":
             n, k = n * 2, k + 2
         lines, metas = [], []
@@ -90,13 +90,16 @@ class C07(Property):
                 break
             feats = {"exec": 4} if rng.random() < 0.35 else ({"cart": 4, "gather": 6} if rng.random() < 0.25 else ({"loop": 3} if rng.random() < 0.25 else None))
             spec = wfgen.gen_spec(rng, size=rng.randint(2, 12), features=feats)
+            if i < len(wfgen.CORPUS):
+                spec = json.loads(json.dumps(wfgen.CORPUS[i]))
+                ctx.corpus_replayed += 1
             failing = rng.random() < 0.33
-            fspec = wfgen.choose_failure(rng, spec) if failing else None
+            fspec = wfgen.choose_failure(rng, spec, loop_upstream_prob=0.0) if failing else None   # loop hangs belong to C04
             if fspec is None:
                 failing = False
             run_spec = fspec or spec
             seeds = [rng.randrange(1 << 30) for _ in range(k)]
-            runs = wfcheck.run_schedules(run_spec, seeds, ctx.scratch, timeout=30.0)
+            runs = wfcheck.run_schedules(run_spec, seeds, ctx.scratch, timeout=30.0, confirm_hangs=not failing)
             nrows = [len(r.get("db", {}).get("provenance", [])) for r in runs]
             key = ("wf", json.dumps(run_spec, sort_keys=True)) if max(nrows, default=0) >= 4 else None
             ctx.case({"spec": run_spec, "failing": failing, "provenance_rows": nrows}, key, ("fail+" if failing else "ok+") + wfcheck.spec_bucket(spec))
